@@ -7,7 +7,8 @@
 
 using namespace mcrt;
 using hx::Pair;
-using COW = gmlc::libguarded::cow_guarded<Pair>;
+using COW_M = gmlc::libguarded::cow_guarded<Pair>;                     // default mutex
+using COW_T = gmlc::libguarded::cow_guarded<Pair, std::timed_mutex>;  // the timed reader forms are used with a timed mutex
 
 namespace {
 int g_rel_invoked;  // commits whose handle release has begun
@@ -25,12 +26,13 @@ struct Reader {
 struct Prog {
     std::vector<std::vector<int>> writers;
     std::vector<Reader> readers;
+    bool timed_mutex = false;  // cow_guarded<Pair, std::timed_mutex>
 };
 const char* formn[] = {"lock_shared", "try_lock_shared", "try_lock_shared_for", "try_lock_shared_until"};
 
 std::string text(const Prog& p)
 {
-    std::string s = "cow_guarded<Pair>";
+    std::string s = p.timed_mutex ? "cow_guarded<Pair,timed_mutex>" : "cow_guarded<Pair>";
     for (auto& w : p.writers) {
         s += " | writer:";
         for (int op : w) s += std::string(" ") + won[op];
@@ -40,23 +42,31 @@ std::string text(const Prog& p)
     return s;
 }
 
-COW::shared_handle snapshot(COW* c, int form)
+template<class COW>
+typename COW::shared_handle snapshot(COW* c, int form)
 {
     using namespace std::chrono_literals;
 #ifdef MODE_C14
     noblock_begin("cow_guarded read acquisition", 24);
 #endif
-    COW::shared_handle h = form == 0 ? c->lock_shared() :
-        form == 1                    ? c->try_lock_shared() :
-        form == 2                    ? c->try_lock_shared_for(1ms) :
-                                       c->try_lock_shared_until(std::chrono::steady_clock::now() + 1ms);
+    typename COW::shared_handle h;
+    if constexpr (std::is_same_v<COW, COW_T>) {
+        h = form == 0 ? c->lock_shared() :
+            form == 1 ? c->try_lock_shared() :
+            form == 2 ? c->try_lock_shared_for(1ms) :
+                        c->try_lock_shared_until(std::chrono::steady_clock::now() + 1ms);
+    } else {
+        // programs that use a timed form are run on the timed-mutex instantiation (make_items)
+        h = form == 0 ? c->lock_shared() : c->try_lock_shared();
+    }
 #ifdef MODE_C14
     noblock_end();
 #endif
     return h;
 }
 
-void body(const Prog& p)
+template<class COW>
+void body_t(const Prog& p)
 {
     g_rel_invoked = g_rel_returned = 0;
     hx::win_reset();
@@ -73,7 +83,7 @@ void body(const Prog& p)
                     stamp();
                     int lo = g_rel_returned;
                     {
-                        COW::handle h = cow->lock();
+                        typename COW::handle h = cow->lock();
                         stamp();
                         int hi = g_rel_invoked;
                         MC_CHECK(bool(h), "null-handle", "cow_guarded::lock returned a null handle");
@@ -89,12 +99,12 @@ void body(const Prog& p)
                             h.cancel();
                             MC_CHECK(!bool(h), "cancel-not-null", "handle not null after cancel()");
                         } else if (op == MOVE_CANCEL) {
-                            COW::handle h2(std::move(h));
+                            typename COW::handle h2(std::move(h));
                             MC_CHECK(bool(h2) && h2->a == v + 1, "move-lost", "moved handle lost the modification");
                             h2.cancel();  // discards the copy and frees the writer lock through the moved-to handle
                             MC_CHECK(!bool(h2), "cancel-not-null", "handle not null after cancel()");
                         } else if (op == MOVE_COMMIT) {
-                            COW::handle h2(std::move(h));
+                            typename COW::handle h2(std::move(h));
                             MC_CHECK(bool(h2) && h2->a == v + 1, "move-lost", "moved handle lost the modification");
                             stamp();
                             ++g_rel_invoked;
@@ -106,7 +116,7 @@ void body(const Prog& p)
                             stamp();
                             ++g_rel_invoked;
                             try {
-                                COW::handle h2(std::move(h));
+                                typename COW::handle h2(std::move(h));
                                 throw UserError();
                             }
                             catch (const UserError&) {
@@ -126,13 +136,13 @@ void body(const Prog& p)
         }
         for (auto& r : p.readers) {
             ids.push_back(spawn([cow, r] {
-                COW::shared_handle kept[4];
+                typename COW::shared_handle kept[4];
                 int keptv[4];
                 int last = -1;
                 for (int i = 0; i < r.snaps; i++) {
                     stamp();
                     int lo = g_rel_returned;
-                    COW::shared_handle s = snapshot(cow, r.form);
+                    typename COW::shared_handle s = snapshot(cow, r.form);
                     stamp();
                     int hi = g_rel_invoked;
                     MC_CHECK(bool(s), "null-handle", "cow_guarded %s returned a null snapshot", formn[r.form]);
@@ -168,7 +178,7 @@ void body(const Prog& p)
     MC_CHECK(fin == total_commits, "lost-update", "final committed value %d after %d commits", fin, total_commits);
     // the writer lock must be free again (cancel / commit released it)
     {
-        COW::handle h = cow->lock();
+        typename COW::handle h = cow->lock();
         MC_CHECK(bool(h) && h->a == total_commits, "final-lock", "final lock() saw %d", h ? h->a : -1);
         h.cancel();
     }
@@ -177,15 +187,28 @@ void body(const Prog& p)
              live_blocks() - base_blocks);
 }
 
+void body(const Prog& p)
+{
+    if (p.timed_mutex) body_t<COW_T>(p);
+    else body_t<COW_M>(p);
+}
+
 void make_items(const Options& o, std::vector<Item>& items)
 {
     bool thorough = o.tier == "thorough";
     int nform = 0;
+    bool force_timed = false;
     auto add = [&](std::vector<std::vector<int>> ws, std::vector<Reader> rs, int Pq, int Pt) {
         Prog p{ws, rs};
+        for (auto& r : rs)
+            if (r.form >= 2) p.timed_mutex = true;  // the timed forms go with a timed mutex
+        if (force_timed) p.timed_mutex = true;
         Item it;
         it.name = text(p);
         it.body = [p] { body(p); };
+#ifdef MODE_C14
+        if (Pq > 2) Pq = 2;  // the read-side oracles of C14 fire at the blocking call itself; C04 explores these programs deeper
+#endif
         it.bounds = hx::tier_bounds(o, Pq, Pt);
         items.push_back(it);
     };
@@ -202,6 +225,11 @@ void make_items(const Options& o, std::vector<Item>& items)
         }
     add({{MOVE_CANCEL}, {COMMIT}}, {Reader{1, 0, false}}, 3, 3);
     add({{MOVE_CANCEL, COMMIT}}, {Reader{2, 1, true}}, 3, 3);
+    // the untimed forms on the timed-mutex instantiation too
+    force_timed = true;
+    add({{COMMIT}, {COMMIT}}, {Reader{2, 0, true}}, 3, 3);
+    add({{COMMIT, CANCEL}}, {Reader{2, 1, false}}, 3, 3);
+    force_timed = false;
     add({{UNWIND_COMMIT}, {COMMIT}}, {Reader{2, 0, true}}, 3, 3);
     add({{UNWIND_COMMIT, UNWIND_COMMIT}}, {Reader{2, 1, false}}, 3, 3);
     // two readers against a committing writer
